@@ -123,6 +123,10 @@ def deref(v):
     return v
 
 
+SLOT_OF = {}            # id(element object) -> (list, index) for elements handed out by iter_mut() (set by the machine)
+SLOT_PTR = [None]       # constructor of a slot pointer (the machine's ListSlot)
+
+
 def become(obj, nv):
     """overwrite the object a reference points to, in place (so that every alias sees it)"""
     if isinstance(obj, Enum) and isinstance(nv, Enum):
@@ -159,7 +163,14 @@ def write_place(env, p, val):
 
                 def set_(nv, obj=v, prev=prev):
                     if not become(obj, nv):
-                        prev(nv)
+                        # the object cannot take the new value's place (an opaque value written over a structured one): if it is an
+                        # element handed out by iter_mut(), the write goes to its slot and the reference now denotes the slot
+                        so = SLOT_OF.get(id(obj))
+                        if so is not None and so[1] < len(so[0]) and so[0][so[1]] is obj:
+                            so[0][so[1]] = nv
+                            prev(SLOT_PTR[0](so[0], so[1]) if SLOT_PTR[0] is not None else nv)
+                        else:
+                            prev(nv)
                 get = lambda obj=v: obj
             continue
         if k == "field":
